@@ -266,11 +266,22 @@ def translator_tie(thorough=False):
             return False
     known_good = [v for v in dirty if all(committed_text(x) for x in [v] + TIE_DEPENDS.get(v, []))]   # e.g. right after a run on a modified tree
     dirty = [v for v in dirty if v not in known_good]
+    # each changed view on its own (so that one view's failure or time-out says nothing about another), but with a budget for
+    # all of them together: a change to a shared helper can alter the generated text of many views at once
+    total = float(os.environ.get("VERIF_TIE_TOTAL_S", 300))
     groups = [([v for v in todo if v not in dirty], 1200.0)] + [([v], limit) for v in dirty]
-    for vs, lim in groups:
+    spent = 0.0
+    for gi, (vs, lim) in enumerate(groups):
         if not vs:
             continue
-        rc, out = build(vs, lim)
+        if gi > 0 and spent >= total:
+            for v in vs:
+                res["broken"][v] = "SF.GenEq.%s.tie not re-checked: the %.0f s budget for re-proving changed views was used up" % (v, total)
+            continue
+        tb = time.time()
+        rc, out = build(vs, lim if gi == 0 else min(lim, max(5.0, total - spent)))
+        if gi > 0:
+            spent += time.time() - tb
         if rc == 0:
             res["proved"] += vs
             continue
